@@ -108,7 +108,25 @@ static std::string doParse(const std::vector<std::string>& a) {
     const std::string& api = a[1];
     char sc = a[2][0];
     const std::string& val = a[3];
-    const std::string& fl = a[4];
+    // flags: letters, optionally followed by ";B<n>" (setInputBufferSize) and ";L<n>" (low-water mark)
+    std::string fl = a[4];
+    long optBuf = -1, optLow = -1;
+    {
+        size_t sc0 = fl.find(';');
+        if (sc0 != std::string::npos) {
+            std::string rest = fl.substr(sc0);
+            fl = fl.substr(0, sc0);
+            size_t i = 0;
+            while (i < rest.size()) {
+                size_t j = rest.find(';', i + 1);
+                if (j == std::string::npos) j = rest.size();
+                std::string o = rest.substr(i + 1, j - i - 1);
+                if (!o.empty() && o[0] == 'B') optBuf = atol(o.c_str() + 1);
+                if (!o.empty() && o[0] == 'L') optLow = atol(o.c_str() + 1);
+                i = j;
+            }
+        }
+    }
     bool ns = fl.find('n') != std::string::npos, schema = fl.find('s') != std::string::npos,
          full = fl.find('f') != std::string::npos, cont = fl.find('x') != std::string::npos,
          loadDTD = fl.find('d') != std::string::npos, entRef = fl.find('e') != std::string::npos,
@@ -126,6 +144,8 @@ static std::string doParse(const std::vector<std::string>& a) {
         p.setDoNamespaces(ns); p.setDoSchema(schema); p.setValidationSchemaFullChecking(full);
         p.setExitOnFirstFatalError(!cont); p.setLoadExternalDTD(loadDTD);
         p.cacheGrammarFromParse(cache); p.useCachedGrammarInParse(cache);
+        if (optBuf >= 0) p.setInputBufferSize((XMLSize_t)optBuf);
+        if (optLow >= 0) p.setLowWaterMark((XMLSize_t)optLow);
         p.setDocumentHandler(&h); p.setErrorHandler(&h); p.setEntityResolver(&res);
         return runDocs(d, [&](ChunkSource& src) { h.n = 0; p.parse(src); return h.n; }, hist);
     } else if (api == "sax2") {
@@ -141,6 +161,9 @@ static std::string doParse(const std::vector<std::string>& a) {
         p->setFeature(XMLUni::fgXercesLoadExternalDTD, loadDTD);
         p->setFeature(XMLUni::fgXercesCacheGrammarFromParse, cache);
         p->setFeature(XMLUni::fgXercesUseCachedGrammarInParse, cache);
+        XMLSize_t lowV = (XMLSize_t)optLow;
+        if (optBuf >= 0) p->setInputBufferSize((XMLSize_t)optBuf);
+        if (optLow >= 0) p->setProperty(XMLUni::fgXercesLowWaterMark, &lowV);
         p->setContentHandler(&h); p->setErrorHandler(&h); p->setEntityResolver(&res);
         return runDocs(d, [&](ChunkSource& src) { h.n = 0; p->parse(src); return h.n; }, hist);
     } else if (api == "dom") {
@@ -152,6 +175,7 @@ static std::string doParse(const std::vector<std::string>& a) {
         p.setExitOnFirstFatalError(!cont); p.setLoadExternalDTD(loadDTD);
         p.setCreateEntityReferenceNodes(entRef);
         p.cacheGrammarFromParse(cache); p.useCachedGrammarInParse(cache);
+        if (optLow >= 0) p.setLowWaterMark((XMLSize_t)optLow);
         p.setErrorHandler(&h); p.setEntityResolver(&res);
         return runDocs(d, [&](ChunkSource& src) {
             h.n = 0;
@@ -175,6 +199,8 @@ static std::string doParse(const std::vector<std::string>& a) {
         c->setParameter(XMLUni::fgXercesLoadExternalDTD, loadDTD);
         c->setParameter(XMLUni::fgXercesCacheGrammarFromParse, cache);
         c->setParameter(XMLUni::fgXercesUseCachedGrammarInParse, cache);
+        XMLSize_t lowV = (XMLSize_t)optLow;
+        if (optLow >= 0) c->setParameter(XMLUni::fgXercesLowWaterMark, &lowV);
         c->setParameter(XMLUni::fgDOMEntities, entRef);
         c->setParameter(XMLUni::fgDOMErrorHandler, &eh);
         c->setParameter(XMLUni::fgXercesEntityResolver, (XMLEntityResolver*)&res);
